@@ -1,5 +1,7 @@
 (** Per-case verdict for the wide C01 alphabet. *)
 From SF Require Export Model.ChainExt.
+From SF Require Import Model.ChainG Model.ChainExtProof.
+From SF Require Import Model.ChainStages.
 Open Scope Z_scope.
 
 Inductive xmode := XSeq | XBag | XSubOf (n : nat) | XDedup (subset : list string).
@@ -34,7 +36,9 @@ Section CheckX.
   Variable c : cfg.
   Variable deco : string -> option opk.
 
-  (** t2 | impl=model | impl=spec | in theorem domain | impl raised | same multiset as spec   (2 = n/a) *)
+  (** t2 | impl=model | impl=spec | in the core theorem's domain (C01_partial: only core operations, [ops_ok]) |
+      impl raised | same multiset as spec | in the wide theorem's domain (C01_partial_wide: [xs_ok], core operations,
+      fillna, replace, toDF, dropna)   (2 = n/a) *)
   Definition check_x (k : xcase) : string :=
     let input := xc_input k in
     let ics := cols input in
@@ -51,16 +55,63 @@ Section CheckX.
     let dom := match all_core (xc_ops k) with
                | Some us => ops_ok c (init_df ics) ics (desugar_all ics us)
                | None => false end in
+    let wdom := xs_ok c deco (init_df ics) ics (xc_ops k) && nodupb ics in
     match xc_impl k with
     | Some (gcols, grows) =>
         t2s t2
         ++ t2s (option_map (fun m => list_eqb String.eqb gcols (cols m)
                                      && cmp_x (xc_mode k) (cols pre) (rows m) (rows pre) grows) model)
         ++ b2s (list_eqb String.eqb gcols (cols spec) && cmp_x (xc_mode k) (cols pre) (rows spec) (rows pre) grows)
-        ++ b2s dom ++ "0" ++ b2s (bag_eqb (rows spec) grows)
-    | None => t2s t2 ++ "20" ++ b2s dom ++ "10"
+        ++ b2s dom ++ "0" ++ b2s (bag_eqb (rows spec) grows) ++ b2s wdom
+    | None => t2s t2 ++ "20" ++ b2s dom ++ "10" ++ b2s wdom
     end.
 End CheckX.
+
+(** the same verdict over the whole alphabet: the model is the stage compiler [run_y] (GROUP BY / UNION ALL /
+    ROW_NUMBER stages + blocks); the exported tree is a stage list too, compared up to the verified normal form
+    [snf]; one more flag: in the domain [ys_ok] of the all-alphabet theorem *)
+Record ycase := mkYCase {
+  yc_input : frame;
+  yc_ops : list xop;
+  yc_mode : xmode;
+  yc_exported : option (list stage);      (* the stages the implementation built, None if not exportable *)
+  yc_impl : option (list string * list row) }.
+
+Section CheckY.
+  Variable c : cfg.
+  Variable g : gcfg.
+  Variable deco : string -> option opk.
+
+  (** t2 | impl=model | impl=spec | core domain | impl raised | same multiset as spec | wide domain [xs_ok] |
+      all-alphabet domain [ys_ok]     (2 = n/a) *)
+  Definition check_y (k : ycase) : string :=
+    let input := yc_input k in
+    let ics := cols input in
+    let spec := spec_xrun (yc_ops k) input in
+    let pre := match yc_mode k with
+               | XSubOf _ | XDedup _ => spec_xrun (removelast (yc_ops k)) input
+               | _ => mkFrame [] [] end in
+    let my := run_y c g deco (init_y ics) (yc_ops k) in
+    let mstages := option_map all_stages my in
+    let model := option_map (fun ss => eval_stages ss input) mstages in
+    let t2 := match mstages, yc_exported k with
+              | Some ss, Some es => Some (list_eqb stage_eqb (snf ics es) (snf ics ss))
+              | _, _ => None end in
+    let dom := match all_core (yc_ops k) with
+               | Some us => ops_ok c (init_df ics) ics (desugar_all ics us)
+               | None => false end in
+    let wdom := xs_ok c deco (init_df ics) ics (yc_ops k) && nodupb ics in
+    let ydom := ys_ok c g deco (init_y ics) (yc_ops k) && nodupb ics in
+    match yc_impl k with
+    | Some (gcols, grows) =>
+        t2s t2
+        ++ t2s (option_map (fun m => list_eqb String.eqb gcols (cols m)
+                                     && cmp_x (yc_mode k) (cols pre) (rows m) (rows pre) grows) model)
+        ++ b2s (list_eqb String.eqb gcols (cols spec) && cmp_x (yc_mode k) (cols pre) (rows spec) (rows pre) grows)
+        ++ b2s dom ++ "0" ++ b2s (bag_eqb (rows spec) grows) ++ b2s wdom ++ b2s ydom
+    | None => t2s t2 ++ "20" ++ b2s dom ++ "10" ++ b2s wdom ++ b2s ydom
+    end.
+End CheckY.
 
 Definition deco_of (tbl : list (string * option opk)) (n : string) : option opk :=
   match find (fun p => String.eqb (fst p) n) tbl with Some (_, k) => k | None => None end.
